@@ -96,13 +96,15 @@ Record MInv (s : mstate) : Prop := {
 
 Lemma mcap_step q s l : mcap (fst (mstep q s l)) = mcap s.
 Proof.
-  destruct l as [k | k cid wfail | k | cid]; cbn [mstep].
+  destruct l as [k | k cid wfail | k | cid | cid | i]; cbn [mstep].
   - destruct (mem_N k (checked s) || _); [reflexivity|]. destruct (at_cap s); reflexivity.
   - destruct (negb (mem_N k (checked s))); [reflexivity|].
     destruct (negb _ && at_cap s); [reflexivity|]. destruct wfail; [|reflexivity].
     destruct (q_mqtt_connack_fail_leaks q); reflexivity.
   - destruct (live_cid k (live s)); reflexivity.
   - reflexivity.
+  - reflexivity.
+  - destruct (nth_error (dels s) i) as [[c o]|]; reflexivity.
 Qed.
 
 Lemma at_cap_false s : at_cap s = false -> 0 < mcap s -> clen s < mcap s.
@@ -110,7 +112,7 @@ Proof. unfold at_cap. lia. Qed.
 
 Lemma minv_step q s l : MInv s -> MInv (fst (mstep q s l)).
 Proof.
-  intros [Hnd Hcap]. destruct l as [k | k cid wfail | k | cid]; cbn [mstep].
+  intros [Hnd Hcap]. destruct l as [k | k cid wfail | k | cid | cid | i]; cbn [mstep]; unfold mset.
   - destruct (mem_N k (checked s) || _); [constructor; auto|]. destruct (at_cap s); constructor; auto.
   - destruct (negb (mem_N k (checked s))); [constructor; auto|].
     destruct (alookup cid (clients s)) as [k0|] eqn:L.
@@ -143,6 +145,11 @@ Proof.
     intros Hc. specialize (Hcap Hc). pose proof (length_aremove_le cid (clients s)). lia.
   - cbn [fst]. constructor; unfold clen in *; cbn [clients mcap]; [now apply NoDup_keys_aremove|].
     intros Hc. specialize (Hcap Hc). pose proof (length_aremove_le cid (clients s)). lia.
+  - cbn [fst]. constructor; auto.
+  - destruct (nth_error (dels s) i) as [[c o]|]; [|constructor; auto]. cbn [fst].
+    destruct (optN_eqb (alookup c (clients s)) o); [|constructor; auto].
+    constructor; unfold clen in *; cbn [clients mcap]; [now apply NoDup_keys_aremove|].
+    intros Hc. specialize (Hcap Hc). pose proof (length_aremove_le c (clients s)). lia.
 Qed.
 
 Lemma minv_init cap : MInv (minit cap).
@@ -168,7 +175,7 @@ Lemma takeover_at_cap q s k cid k0 :
   clen (fst (mstep q s (MCommit k cid false))) = clen s /\
   alookup cid (clients (fst (mstep q s (MCommit k cid false)))) = Some k.
 Proof.
-  intros [Hnd _] Hk L. cbn [mstep]. rewrite Hk, L. cbn [negb andb fst snd clients].
+  intros [Hnd _] Hk L. cbn [mstep]. rewrite Hk, L. unfold mset. cbn [negb andb fst snd clients].
   assert (Hin : In cid (keys (clients s))).
   { destruct (in_dec string_dec cid (keys (clients s))); auto. apply alookup_None in n. congruence. }
   pose proof (length_aremove_in _ _ Hnd Hin) as HL.
@@ -180,7 +187,7 @@ Lemma refused_beyond_cap q s k cid wfail :
   mem_N k (checked s) = true -> alookup cid (clients s) = None -> at_cap s = true ->
   snd (mstep q s (MCommit k cid wfail)) = MRefused /\
   clients (fst (mstep q s (MCommit k cid wfail))) = clients s.
-Proof. intros Hk L AC. cbn [mstep]. rewrite Hk, L, AC. cbn. auto. Qed.
+Proof. intros Hk L AC. cbn [mstep]. rewrite Hk, L, AC. unfold mset. cbn. auto. Qed.
 
 Lemma refused_early_at_cap q s k :
   mem_N k (checked s) = false -> live_cid k (live s) = None -> at_cap s = true ->
@@ -220,7 +227,7 @@ Record MLive (s : mstate) : Prop := {
 
 Lemma mlive_step s l : MInv s -> MLive s -> MLive (fst (mstep ideal s l)).
 Proof.
-  intros [Hnd _] [He Hc]. destruct l as [k | k cid wfail | k | cid]; cbn [mstep].
+  intros [Hnd _] [He Hc]. destruct l as [k | k cid wfail | k | cid | cid | i]; cbn [mstep]; unfold mset.
   - destruct (mem_N k (checked s) || _) eqn:G; [constructor; auto|].
     apply orb_false_iff in G as [G1 G2].
     destruct (at_cap s); [constructor; auto|]. cbn [fst]. constructor; cbn [clients checked live]; auto.
@@ -260,6 +267,11 @@ Proof.
     + intros k' H. apply live_cid_remove_none. auto.
   - cbn [fst]. constructor; cbn [clients checked live]; auto.
     intros c' k' H. apply In_aremove in H as [H _]. auto.
+  - cbn [fst]. constructor; cbn [clients checked live]; auto.
+  - destruct (nth_error (dels s) i) as [[c o]|]; [|constructor; auto]. cbn [fst].
+    constructor; cbn [clients checked live]; auto.
+    intros c' k' H. destruct (optN_eqb (alookup c (clients s)) o); auto.
+    apply In_aremove in H as [H _]. auto.
 Qed.
 
 Lemma mlive_run : forall ls s, MInv s -> MLive s -> MLive (mrun ideal s ls).
